@@ -11,7 +11,9 @@ import (
 	"strconv"
 	"strings"
 	"time"
+	"unicode/utf16"
 
+	"github.com/formancehq/numscript/internal/analysis"
 	"github.com/formancehq/numscript/internal/lsp"
 	"github.com/formancehq/numscript/internal/verifmc/gen"
 	"github.com/formancehq/numscript/internal/verifmc/mc"
@@ -28,10 +30,10 @@ func init() {
 		Title: "The language server answers from the latest text",
 		Rule: "(a) model state = uri -> latest text over U URIs (one more is never opened) and T texts (valid with variables; same names with other types and positions; erroneous half-typed; empty; ...); operations didOpen / didChange(uri, text) (didChange also with several content changes, the last one wins); ALL histories of length <= H, then breadth-first to depth D deduplicated on the model state, which must equal the server's own document map (read through an overlay export shim) in every reached state; in EVERY reached state the full query battery: hover and definition at every position of every URI and documentSymbol of every URI; " +
 			"oracle: every response and every publishDiagnostics notification (captured from stdout) equals that of a fresh server that has only seen didOpen(uri, latest text); unopened URI => null; " +
-			"(b) navigation: all generator scripts (variable-rich, weight <= W, including send-all statements over sources the checker rejects) x EVERY position, and those of weight <= W-1 also laid out one token per line with falling / with rising indentation x EVERY position of every line: inside a use of a declared variable => hover names that variable and its declared type over the use's range, definition is the exact range of the declaration; on a builtin function name => that builtin; elsewhere => nothing (the position at a token's end may answer either way); " +
+			"(b) navigation: all generator scripts (variable-rich, weight <= W, including send-all statements over sources the checker rejects) x EVERY position (counted in UTF-16 code units, the protocol's default encoding; the scripts contain characters outside the BMP), the diagnostics published on didOpen against analysis.CheckSource called directly, and those of weight <= W-1 also laid out one token per line with falling / with rising indentation x EVERY position of every line: inside a use of a declared variable => hover names that variable and its declared type over the use's range, definition is the exact range of the declaration; on a builtin function name => that builtin; elsewhere => nothing (the position at a token's end may answer either way); " +
 			"non-trivial = the history changes some document at least once after opening it or touches two URIs / the script has >= 1 variable use; distinct = history / script text",
 		Assumptions: []string{"histories are well-formed: the first notification for a URI is didOpen, later ones didChange, every didChange carries >= 1 content change", "symbol lists are compared as sets (the protocol does not order them)"},
-		QuickBudget: 80 * time.Second,
+		QuickBudget: 150 * time.Second,
 		ThoroBudget: 12 * time.Minute,
 		Run:         runC19,
 	})
@@ -168,6 +170,55 @@ func canonDiagnostics(frame string) string {
 	}
 	sort.Strings(ss)
 	return m.Method + "|" + m.Params.URI + "|[" + strings.Join(ss, ",") + "]"
+}
+
+// diagnosticsMismatch compares the one publishDiagnostics notification of a didOpen with what
+// analysis.CheckSource reports for the text, ranges converted to UTF-16 code units by the harness.
+func diagnosticsMismatch(out, uri, text string) string {
+	fr := frames(out)
+	if len(fr) != 1 {
+		return fmt.Sprintf("didOpen produced %d notifications, expected one publishDiagnostics", len(fr))
+	}
+	var m struct {
+		Method string `json:"method"`
+		Params struct {
+			URI         string `json:"uri"`
+			Diagnostics []struct {
+				Range    lspRange `json:"range"`
+				Severity int      `json:"severity"`
+				Message  string   `json:"message"`
+			} `json:"diagnostics"`
+		} `json:"params"`
+	}
+	if err := json.Unmarshal([]byte(fr[0]), &m); err != nil || m.Method != "textDocument/publishDiagnostics" || m.Params.URI != uri {
+		return "didOpen did not publish diagnostics for the opened URI: " + trunc(fr[0], 200)
+	}
+	lines := strings.Split(text, "\n")
+	units := func(line, char int) int {
+		if line < 0 || line >= len(lines) {
+			return char
+		}
+		rs := []rune(lines[line])
+		n := char
+		for i := 0; i < char && i < len(rs); i++ {
+			n += utf16.RuneLen(rs[i]) - 1
+		}
+		return n
+	}
+	var got, want []string
+	for _, d := range m.Params.Diagnostics {
+		got = append(got, fmt.Sprintf("%d:%d-%d:%d|%d|%s", d.Range.Start.Line, d.Range.Start.Character, d.Range.End.Line, d.Range.End.Character, d.Severity, d.Message))
+	}
+	for _, d := range analysis.CheckSource(text).Diagnostics {
+		r := d.Range
+		want = append(want, fmt.Sprintf("%d:%d-%d:%d|%d|%s", r.Start.Line, units(r.Start.Line, r.Start.Character), r.End.Line, units(r.End.Line, r.End.Character), int(d.Kind.Severity()), d.Kind.Message()))
+	}
+	sort.Strings(got)
+	sort.Strings(want)
+	if strings.Join(got, "\n") != strings.Join(want, "\n") {
+		return fmt.Sprintf("published diagnostics %q differ from the analysis of the same text %q", got, want)
+	}
+	return ""
 }
 
 func positionsOf(text string) [][2]int {
@@ -574,10 +625,16 @@ var builtinContext = map[string]string{"set_tx_meta": "stmt", "set_account_meta"
 
 func navCheck(w *mc.Worker, prog *gen.Program, pr *gen.Printed, text string, starts, ends []gen.Pos, uri string) {
 	s := newServer()
-	if _, p := s.open(uri, text); p != "" {
+	opened, p := s.open(uri, text)
+	if p != "" {
 		w.Eval(text, true, "open-panic")
 		w.Violation("C19.panic:notification", "the server panicked on didOpen: "+p, len(text), Case{Script: text})
 		return
+	}
+	// the published diagnostics against the analysis called directly: same set of (range in UTF-16
+	// units, severity, message)
+	if msg := diagnosticsMismatch(opened, uri, text); msg != "" {
+		w.Violation("C19.diagnostics:direct", msg, len(text), Case{Script: text})
 	}
 	// expected token classes (single line layout)
 	type tokInfo struct {
@@ -636,9 +693,26 @@ func navCheck(w *mc.Worker, prog *gen.Program, pr *gen.Printed, text string, sta
 	}
 	bad, clause := "", ""
 	lines := strings.Split(text, "\n")
+	// LSP positions count UTF-16 code units (the protocol's default encoding; the server announces no
+	// other): the printer's character columns are converted, line by line
+	units := func(p gen.Pos) gen.Pos {
+		rs := []rune(lines[p.Line])
+		n := 0
+		for i := 0; i < p.Char && i < len(rs); i++ {
+			n += utf16.RuneLen(rs[i])
+		}
+		if p.Char > len(rs) {
+			n += p.Char - len(rs)
+		}
+		return gen.Pos{Line: p.Line, Char: n}
+	}
+	starts, ends = append([]gen.Pos{}, starts...), append([]gen.Pos{}, ends...)
+	for i := range starts {
+		starts[i], ends[i] = units(starts[i]), units(ends[i])
+	}
 	npos := 0
 	for ln := 0; ln < len(lines) && bad == ""; ln++ {
-		for ch := 0; ch <= len([]rune(lines[ln]))+1 && bad == ""; ch++ {
+		for ch := 0; ch <= len(utf16.Encode([]rune(lines[ln])))+1 && bad == ""; ch++ {
 			npos++
 			// which token (if any) contains ch strictly / at its end
 			inside, atEnd := -1, -1
